@@ -1,9 +1,18 @@
 """C14 - each snapshot() call site has its own state; repeated evaluation aggregates."""
 from .core import core_check
+from .. import partial_replay
+
+
+def _partial(chk):
+    # an independent witness site after comparisons that raise half way (spec/ISPartial.tla): nothing leaks
+    if chk.quick:
+        partial_replay.run(chk, k=2, max_cmp=3)
+    else:
+        partial_replay.run(chk, k=3, max_cmp=3, stride=8)
 
 
 def run():
-    chk = core_check("C14", cfgs=("B", "A"), quick_keep=16, thorough_keep=6, keep_b=(3, 1))
+    chk = core_check("C14", cfgs=("B", "A"), quick_keep=16, thorough_keep=6, keep_b=(3, 1), extra=_partial)
     if isinstance(chk, int):
         return chk
     chk.assumptions += ["placements: own function, all calls on one line (lambdas), one function holding all calls, "
@@ -13,4 +22,6 @@ def run():
              "projection of the program on that site (Independence) and enumerates all interleavings of evaluations; "
              "each run is executed with a seeded placement of the calls; per-site categories and written arguments "
              "are compared with the per-site fold of the model; re-evaluation with a changed hand-written argument "
-             "must raise UsageError and record nothing; non-trivial = something pending or a failing test")
+             "must raise UsageError and record nothing; the terminal states of ISPartial (one site compared several times "
+             "with values whose entries may raise) are replayed with an independent witness site whose create must "
+             "stay pending; non-trivial = something pending or a failing test")
